@@ -7,14 +7,20 @@
    statement about two executions of the binary and is decided by the system-level check
    (vlib/c15.py); the full equality is false today (known classes C15-K1, K2, K3 there).
 
-   Full-strength statement for the rewrite (all notes the reader accepts):
-       forall s t, try_remap s t = Some (replace_base s t)
-   It is FALSE of the faithful model (C15_remap_refuted: a tracked file whose name contains the
-   marker text followed by a colon and a quoted string); C15_remap_base_only is the statement
-   under the exact boolean side condition wf_note (the marker text does not begin anywhere before
-   the metadata, and the metadata has the field). *)
+   The rewrite of base_commit_sha has had two shapes in the source; the translator (Gen/GenRemap.v)
+   says which one the tree has (remap_below_divider) and Model.try_remap follows it.
+   * repaired shape (marker searched below the first divider line): the full-strength statement
+       forall s t, has_base_field s = true -> try_remap_scoped s t = Some (replace_base s t)
+     holds with no condition on the attestation section (C15_remap_scoped_base_only), and
+     C15_remap_note_scoped carries it to the function the shortcut calls.
+   * historical shape (marker searched in the whole note): the statement is FALSE
+     (C15_remap_unscoped_refuted: a tracked file whose name contains the marker text followed by a
+     colon and a quoted string — former known finding C15-K4 = C05-K3); C15_remap_base_only is that
+     shape's statement under the exact side condition wf_note.
+   The check module requires remap_below_divider = true (obligation), so on a tree without the
+   repair the check fails there and on the regression witness. *)
 From Coq Require Import List NArith Bool.
-From Verif Require Import Base.Str Model.Remap Proofs.RemapProofs.
+From Verif Require Import Base.Str Gen.GenRemap Model.Remap Proofs.RemapProofs.
 Import ListNotations.
 Open Scope N_scope.
 
@@ -69,46 +75,79 @@ Theorem C15_shortcut_writes :
 Proof. exact shortcut_writes. Qed.
 Print Assumptions C15_shortcut_writes.
 
-(* the rewrite replaces the value of the first marker occurrence and nothing else *)
+(* the scan replaces the value of the first marker occurrence of the text it is given, nothing else *)
 Theorem C15_remap_field_only :
   forall pre w1 w2 v post t,
     no_marker_start pre (marker ++ w1 ++ c_colon :: w2 ++ c_dq :: v ++ c_dq :: post) = true ->
     forallb is_json_ws w1 = true -> forallb is_json_ws w2 = true -> esc_body v = true ->
-    try_remap (note_shape pre w1 w2 v post) t = Some (note_shape pre w1 w2 t post).
+    remap_in (note_shape pre w1 w2 v post) t = Some (note_shape pre w1 w2 t post).
 Proof. exact remap_field_only. Qed.
 Print Assumptions C15_remap_field_only.
 
+(* the position computed by the repaired code is the reader's divider: the first LF-terminated
+   line of three dashes *)
+Theorem C15_metadata_start : forall s, meta_split s = split_note s.
+Proof. exact meta_split_note. Qed.
+Print Assumptions C15_metadata_start.
+
+(* repaired shape: for EVERY note with a divider and the field — whatever the paths contain — the
+   rewrite changes exactly the metadata's base value *)
+Theorem C15_remap_scoped_base_only :
+  forall s t, has_base_field s = true -> try_remap_scoped s t = Some (replace_base s t).
+Proof. exact scoped_base_only. Qed.
+Print Assumptions C15_remap_scoped_base_only.
+
+(* ... and without a divider it declines (the caller falls back to parse-and-reserialise) *)
+Theorem C15_remap_scoped_no_divider :
+  forall s t, split_note s = None -> try_remap_scoped s t = None.
+Proof. exact scoped_no_divider. Qed.
+Print Assumptions C15_remap_scoped_no_divider.
+
+(* the function the shortcut calls, for the shape the source has *)
+Theorem C15_remap_note_scoped :
+  forall fb s t, remap_below_divider = true -> has_base_field s = true ->
+    remap_note fb s t = replace_base s t.
+Proof. exact remap_note_scoped. Qed.
+Print Assumptions C15_remap_note_scoped.
+
+(* historical shape, exact side condition *)
 Theorem C15_remap_base_only :
-  forall s t, wf_note s = true -> try_remap s t = Some (replace_base s t).
+  forall s t, wf_note s = true -> remap_in s t = Some (replace_base s t).
 Proof. exact remap_base_only. Qed.
 Print Assumptions C15_remap_base_only.
 
+(* either shape *)
 Theorem C15_remap_note_base_only :
   forall fb s t, wf_note s = true -> remap_note fb s t = replace_base s t.
 Proof. exact remap_note_base_only. Qed.
 Print Assumptions C15_remap_note_base_only.
 
-Theorem C15_remap_refuted :
+Theorem C15_remap_unscoped_refuted :
   exists s t r,
-    (exists att md md', split_note s = Some (att, md) /\ try_remap md t = Some md') /\
-    try_remap s t = Some r /\ r <> replace_base s t /\
+    (exists att md md', split_note s = Some (att, md) /\ remap_in md t = Some md') /\
+    remap_in s t = Some r /\ r <> replace_base s t /\
     (exists att md att', split_note s = Some (att, md) /\ r = att' ++ md /\ att' <> att).
-Proof. exact remap_refuted. Qed.
-Print Assumptions C15_remap_refuted.
+Proof. exact remap_unscoped_refuted. Qed.
+Print Assumptions C15_remap_unscoped_refuted.
 
 (* non-vacuity: a realistic note (quoted path, a prompt whose text mentions the marker) meets
-   wf_note and is rewritten as intended; a printed output with a rename to a path containing a
-   newline and a colon, an addition, a type change and a deletion meets out_ok, parses back, and
-   the comparator separates the tracked-hit from the tracked-miss case *)
+   wf_note and is rewritten as intended; the note of a file whose NAME contains the marker text
+   fails wf_note, meets has_base_field and is rewritten correctly by the repaired shape; a printed
+   output with a rename to a path containing a newline and a colon, an addition, a type change and
+   a deletion meets out_ok, parses back, and the comparator separates tracked-hit from tracked-miss *)
 Theorem C15_nonvacuous :
   wf_note wit_good_note = true /\
-  try_remap wit_good_note wit_good_target = Some wit_good_remapped /\
+  remap_in wit_good_note wit_good_target = Some wit_good_remapped /\
   wf_note wit_bad_note = false /\
+  has_base_field wit_bad_note = true /\
+  try_remap_scoped wit_bad_note wit_target = Some wit_bad_fixed /\
   out_ok wit_ds = true /\ parse_out (print_out wit_ds) = Some wit_ds /\
   matches (print_out (limit wit_tracked_hit wit_ds)) 3 = false /\
   matches (print_out (limit wit_tracked_miss wit_ds)) 3 = true.
 Proof.
   pose proof wit_ds_facts as [A [B [_ [C [D _]]]]].
-  exact (conj wit_good_wf (conj (proj1 wit_good_remap) (conj wit_bad_not_wf (conj A (conj B (conj C D)))))).
+  pose proof wit_bad_scoped as [E [F _]].
+  exact (conj wit_good_wf (conj (proj1 wit_good_remap) (conj wit_bad_not_wf
+        (conj E (conj F (conj A (conj B (conj C D)))))))).
 Qed.
 Print Assumptions C15_nonvacuous.
